@@ -48,7 +48,13 @@ def pow2_pool(r, isf):
 class C01(AtomicProp):
     pid = "C01"
     obj = "ctr"
-    imports = "Require Import PV.Model.AtomicConc PV.Spec.SpecC01.\nRequire PV.Model.VecConc."
+    imports = "Require Import PV.Model.AtomicConc PV.Spec.SpecC01.\nRequire PV.Model.VecConc.\nRequire PV.Proofs.AtomicSpecFull PV.Proofs.AtomicSpecFloat PV.Proofs.C01VecSpec."
+    # the domains of c01_spec_of_validated_int / c01_spec_of_validated_float / c01_vec_spec_of_validated
+    dom_def = ("Definition chk_dom (c : (flavour * list event) + (nat * nat * list event)) : bool :=\n"
+               "  match c with\n"
+               "  | inl a => match fst a with FlFloat => PV.Proofs.AtomicSpecFloat.dom01_float_full (snd a) | FlInt => PV.Proofs.AtomicSpecFull.dom01_int (snd a) end\n"
+               "  | inr v => PV.Proofs.C01VecSpec.dom_c01_vec (snd (fst v)) (snd v)\n"
+               "  end.")
     # a case is a counter trace (flavour, events) or a vector trace (label names, threads, events)
     case_type = "(flavour * list event) + (nat * nat * list event)"
     chk_def = ("Definition chk (c : (flavour * list event) + (nat * nat * list event)) : bool :=\n"
